@@ -270,7 +270,14 @@ Definition e7 : bool :=
   forallb (fun f => implb (str_in (fn_owner f) lock_types && safe_public f && fn_shared_self_returns_data f)
                           (fn_key_val f || fn_keyable_val f)) fns.
 
-Definition wf_data_known : bool := e1 && e2 && e3 && e5 && e6 && e7. (* everything but the known finding F5 *)
+(* E8: a guard or a hold carrier never hands out a reference to the lock (or collection, or wrapper) it came from: the
+   guard of an owned collection is made of the members' guards, so such an accessor would name a member lock of an owned
+   collection — for as long as the collection is borrowed, not only while the guard lives — and the member could be put
+   into another collection and locked in a different order *)
+Definition e8 : bool :=
+  forallb (fun f => implb (str_in (fn_owner f) (key_carriers ++ hold_carriers) && safe_public f) (negb (fn_returns_lock_ref f))) fns.
+
+Definition wf_data_known : bool := e1 && e2 && e3 && e5 && e6 && e7 && e8. (* everything but the known finding F5 *)
 Definition wf_data : bool := wf_data_known && e4.
 
 (* ---------------------------------------------------------------- offending items of the current API
@@ -295,7 +302,8 @@ Definition c15_offending_fns : list (string * string * string) :=
     (str_in (fn_name f) entry_names && negb (fn_unsafe f || negb (fn_public f))) ||
     (String.eqb (fn_owner f) "OwnedLockCollection" && safe_public f && fn_returns_shared_child f) ||
     (str_in (fn_owner f) cache_types && safe_public f && fn_mut_self f && negb (String.eqb (fn_trait f) "Drop")) ||
-    (str_in (fn_owner f) lock_types && safe_public f && fn_shared_self_returns_data f && negb (fn_key_val f || fn_keyable_val f))) fns).
+    (str_in (fn_owner f) lock_types && safe_public f && fn_shared_self_returns_data f && negb (fn_key_val f || fn_keyable_val f)) ||
+    (str_in (fn_owner f) (key_carriers ++ hold_carriers) && safe_public f && fn_returns_lock_ref f)) fns).
 Definition c15_offending_impls : list (string * string) :=
   filter (fun x => (String.eqb (fst x) "OwnedLockCollection" && str_in (snd x) ["AsRef"; "Deref"; "IntoIterator&"]) ||
                    (str_in (fst x) cache_types && str_in (snd x) mut_traits)) trait_impls.
